@@ -21,8 +21,50 @@ fn limits(rng: &mut Rng, dense: bool) -> Limits {
     }
 }
 
+/// Long sessions: the cache is never cleared inside a UCI session, so a few million nodes of
+/// earlier searches sit in it when a position the engine has not seen yet is searched.
+pub fn long_sessions(thorough: bool) -> u64 {
+    if thorough {
+        160
+    } else {
+        16
+    }
+}
+
+fn long_session(seed: u64) -> Vec<Plan> {
+    use super::super::kernel::{Action, Policy};
+    let mut rng = Rng::new(seed);
+    let mut plan = Plan::new("C14", seed);
+    let mut s = vec![];
+    for _ in 0..rng.range(4, 6) {
+        s.push(Action::send(format!("position fen {}", rng.pick(gen::BENCH_FENS))));
+        s.push(Action::send(format!("go nodes {}", rng.range(400_000, 800_000))));
+        s.push(Action::WaitBestmove);
+        s.push(Action::WaitIdle);
+        // probes on positions the session has not seen
+        for _ in 0..2 {
+            let p = gen::sparse_position(&mut rng);
+            s.push(Action::send(format!("position fen {}", p.to_fen())));
+            s.push(Action::send(format!("go depth {}", rng.range(1, 3))));
+            s.push(Action::WaitBestmove);
+            s.push(Action::WaitIdle);
+        }
+    }
+    s.push(Action::send("quit"));
+    plan.script = s;
+    plan.cost_ns = 1000;
+    plan.policy = Some(Policy::Quiet);
+    plan.step_cap = 60_000_000;
+    plan.tick_cap = 200_000_000;
+    plan.params = super::super::json::J::obj().set("long_session", true);
+    vec![plan]
+}
+
 pub fn generate(cx: &super::GenCtx) -> Vec<Plan> {
     let seed = cx.seed;
+    if cx.index < long_sessions(cx.thorough) {
+        return long_session(seed);
+    }
     let mut rng = Rng::new(seed);
     let mut plan = Plan::new("C14", seed);
     let mut s = session_script(&mut rng, limits, 4);
@@ -150,6 +192,10 @@ pub fn check(plans: &[Plan], recs: &[RunRec]) -> Outcome {
     common_stats(plan, rec, &mut out.stats);
     let h = history(rec);
     let views = go_views(&h);
+    if plan.params.b("long_session") {
+        out.stats.inc("reach.long_session");
+        out.stats.max("cache_entries_at_end_of_long_session", super::super::kernel::tt_len() as u64);
+    }
     let mut warm = false;
     for v in &views {
         let g = v.go;
